@@ -1,7 +1,7 @@
 """Exploration plans per property: which harness families / option sets are
 enumerated in the quick and thorough tiers, with which build variant."""
 
-HARNESS_SOURCES = ["engine.c", "ref.c", "qsx.c", "lpfam.c", "h_inst.c", "h_hist.c", "families.c"]  # keep in sync with harness/families.c
+HARNESS_SOURCES = ["engine.c", "ref.c", "qsx.c", "lpfam.c", "h_inst.c", "h_hist.c", "h_basis.c", "h_copy.c", "families.c"]  # keep in sync with harness/families.c
 
 
 def lp(id, variant, fam, cfg="default", weight=1, **kw):
@@ -92,6 +92,66 @@ PLANS["C07"] = {
     "bounds": {"quick": "lifecycle states = 6 starts x every valid prefix of length <= 1 (67 prefixes) x 236 invalid calls",
                "thorough": "prefixes of length <= 2 over the reduced alphabet"},
     "evidence": {"states": ["invalid_calls"], "transitions": ["api_transitions"], "nontrivial": ["invalid_calls"]},
+    "assumptions": HIST_ASSUME,
+}
+
+
+def fam(id, variant, family, opts, weight=1, **kw):
+    r = {"id": id, "variant": variant, "family": family, "opts": opts, "weight": weight, "crash_props": ["C17"], "timeout": 120}
+    r.update(kw)
+    return r
+
+
+PLANS["C12"] = {
+    "title": "basis verdicts and returned bases are exact",
+    "rule": ("family 'basis': for every LP of the named family EVERY basis is enumerated (every choice of m basic variables among the n+m structural and logical "
+             "ones x every assignment of the others to an existing finite bound, 'free' for free columns; the status 'upper' is used for a row only when it is ranged, "
+             "which is the only case the library accepts) and QSexact_basis_optimalstatus / _dualstatus / QSexact_verify are compared with an independent exact Gaussian "
+             "elimination (O-BASIS); family 'lp': every basis returned with OPTIMAL under every configuration is checked (one basic per row, exact basic solution = reported "
+             "solution, verdict function and warm start confirm). non-trivial LP = has at least one non-singular basis"),
+    "quick": [fam("basis-S0q1", "prod", "basis", {"fam": "S0q1", "files": 0}, weight=3, crash_props=["C17", "C12"]),
+              fam("basis-S1q", "prod", "basis", {"fam": "S1q", "files": 0}, weight=2, crash_props=["C17", "C12"]),
+              lp("S0q1-k1", "prodl1", "S0q1", "k1", weight=3)],
+    "thorough": [fam("basis-S0c", "prod", "basis", {"fam": "S0c", "files": 0}, weight=6, crash_props=["C17", "C12"]),
+                 fam("basis-S1r", "prod", "basis", {"fam": "S1r", "files": 0, "verify": 0}, weight=6, crash_props=["C17", "C12"]),
+                 fam("basis-S1q-san", "san", "basis", {"fam": "S1q", "files": 0}, weight=3, crash_props=["C17", "C12"]),
+                 lp("S0c-k1", "prodl1", "S0c", "k1", weight=6), lp("T-k1", "prod", "T", "k1", weight=3)],
+    "bounds": {"quick": "all bases of all LPs of S0q1 (n<=2,m<=1) and S1q (ranged rows, fixed and boxed columns); returned bases of S0q1 x K<=1",
+               "thorough": "all bases of S0c (n,m<=2) and S1r; returned bases of S0c and T x K<=1"},
+    "evidence": {"states": ["bases", "c12_returned_bases"], "transitions": ["executions"], "nontrivial": ["bases_nonsingular", "c12_returned_nonsingular"]},
+    "assumptions": ["O-BASIS treats a non-basic variable with lower = upper as dual feasible regardless of the sign of its reduced cost (as the library does for fixed variables)",
+                    "QSexact_verify with useprestep=1 may answer 'yes' through the approximate-solution shortcut even when the supplied basis itself is not dual feasible; only 'dual feasible => yes' is demanded there, the strict iff is demanded with useprestep=0",
+                    "singular bases are out of scope as the property says"] + LP_ASSUME,
+}
+PLANS["C14"] = {
+    "title": "a basis file reads back as the same basis; writing does not consume the basis",
+    "rule": ("family 'basis' with files=1: for every LP and every valid basis, mpq_QSwrite_basis(p,B,f) then mpq_QSread_basis / mpq_QSread_and_load_basis must give the same basic set "
+             "and at-upper set (non-basic free <-> at-lower tolerated) and the same exact basic solution; family 'hist': mpq_QSwrite_basis(p,NULL,f) appears as an operation inside "
+             "every history, followed by every other operation, and the basis must still be there"),
+    "quick": [fam("basisfile-S1q", "prod", "basis", {"fam": "S1q", "files": 1, "verify": 0}, weight=2, crash_props=["C17", "C14"]),
+              fam("basisfile-S0q1", "prod", "basis", {"fam": "S0q1", "files": 1, "verify": 0}, weight=2, crash_props=["C17", "C14"]),
+              hist("hist-d2-san", "san", 2, weight=3), hist("hist-d3r-prod", "prod", 3, reduced=1, weight=3)],
+    "thorough": [fam("basisfile-S0c", "prod", "basis", {"fam": "S0c", "files": 1, "verify": 0}, weight=6, crash_props=["C17", "C14"]),
+                 fam("basisfile-S1r", "prod", "basis", {"fam": "S1r", "files": 1, "verify": 0}, weight=6, crash_props=["C17", "C14"]),
+                 hist("hist-d3-prod", "prod", 3, weight=10)],
+    "bounds": {"quick": "all bases of S0q1 and S1q; histories of depth 2 (full alphabet) and 3 (reduced alphabet) containing write_basis", "thorough": "all bases of S0c and S1r; depth-3 histories over the full alphabet"},
+    "evidence": {"states": ["bases", "histories"], "transitions": ["executions", "api_transitions"], "nontrivial": ["bases_nonsingular", "histories"]},
+    "assumptions": HIST_ASSUME,
+}
+PLANS["C16"] = {
+    "title": "copies are faithful and independent",
+    "rule": ("family 'copy': start problem x one optional prefix operation (full alphabet, incl. every set_param and solve) ; mpq_QScopy_prob ; every interleaving of <= steps operations "
+             "(reduced alphabet + free) on original and copy; after the copy both conform to the same model and report the same parameters, afterwards a call on one object must leave the full "
+             "observable dump of the other unchanged and both still solve to their own model's answer; family 'lowp': QScopy_prob_mpq_dbl and QScopy_prob_mpq_mpf at 6 precisions on every LP of a "
+             "number-rich family (0, 1, -1, 1/3, 2^53+1, 3*2^-1074, 10^30, infinite bounds) checked entry by entry (1 ulp / 2^(1-prec) relative; zero to zero; infinity to the target's infinity; "
+             "identical sparsity structure, senses and parameters)"),
+    "quick": [fam("copy-s1-san", "san", "copy", {"steps": 1}, weight=3, crash_props=["C17", "C16"]),
+              fam("lowp-SN1-prod", "prod", "lowp", {"fam": "SN1"}, weight=2, crash_props=["C17", "C16"])],
+    "thorough": [fam("copy-s2-prod", "prod", "copy", {"steps": 2}, weight=10, crash_props=["C17", "C16"]),
+                 fam("copy-s1-san", "san", "copy", {"steps": 1}, weight=3, crash_props=["C17", "C16"]),
+                 fam("lowp-SN1-san", "san", "lowp", {"fam": "SN1"}, weight=2, crash_props=["C17", "C16"])],
+    "bounds": {"quick": "1 step after the copy (20100 histories); 72576 number-rich LP indices x 7 targets", "thorough": "2 interleaved steps after the copy (1.0M histories)"},
+    "evidence": {"states": ["histories", "instances"], "transitions": ["api_transitions", "executions"], "nontrivial": ["histories", "instances_nontrivial"]},
     "assumptions": HIST_ASSUME,
 }
 NOT_YET = {}
